@@ -28,6 +28,10 @@ TRIAGE = [
   'wps_negativize(p, wps, .., 2,6,2,6, True) then wps_positivize(same range): 11 cells stay negative'),
  ('F42', lambda c: c['rule'] == 'R-DOM' and 'affinity penalty' in c['construct_key'],
   'warping_paths_affinity(penalty=0.1) = 10.343 (Python) vs 11.783 (C) = Python with penalty 0.01'),
+ ('F45', lambda c: c['rule'] == 'R-MAP' and 'region C map' in c['construct_key'] and 'expand' in c['function'],
+  'l1=l2=12, window=2 (ri2=2, ri3=11): wps_expand_slice with rb=4 returns values shifted by one column relative to the full expansion (31 of 48 slices differ)'),
+ ('F46', lambda c: c['rule'] == 'R-MAP' and 'region B map' in c['construct_key'] and 'expand' in c['function'],
+  'l1=l2=7, window=6 (region B = rows 2..5): wps_expand_slice with cb>=2 returns wrong rows and corrupts the heap (double free or corruption at exit)'),
  ('F22', lambda c: c['rule'] == 'R-MON' and 'reported parameter' in c['construct_key'],
   'distance_to_similarity(D, method="reciprocal", cover_quantile=0.5, return_params=True): re-applying with the reported r gives a different array (round 0)'),
 ]
